@@ -78,22 +78,23 @@ def confirm(prop, m, extra_props):
             return meta
         meta["status"] = "confirmed"
         meta["demo_failure"] = [l for l in o3.splitlines() if "---" in l or "Error" in l or "demo" in l.lower()][:6]
-    finally:
-        sh("git -C /repo worktree remove --force %s" % wt)
-        shutil.rmtree(wt, ignore_errors=True)
-    # evaluation against /repo itself
-    assert sh("git -C /repo status --porcelain")[1].strip() == "", "/repo is not clean"
-    meta["checks"] = {}
-    rc, o = sh("git -C /repo apply --whitespace=nowarn %s" % patch)
-    try:
+        # evaluation: the quick check(s) against the scratch worktree with the change applied (VERIF_REPO), so that /repo
+        # stays untouched and several seeds can be evaluated at the same time
+        os.remove(dst)
+        rc, o = sh("git apply --whitespace=nowarn %s" % patch, cwd=wt)
+        meta["checks"] = {}
+        env = dict(ENV, VERIF_REPO=wt, VERIF_EVIDENCE_DIR="/tmp/seedchk/evidence-%s-%s" % (prop, mid))
         for p in [prop] + list(extra_props):
             t0 = time.time()
-            rc, o = sh("./check %s --tier quick" % p, cwd=V)
+            pr = subprocess.run("./check %s --tier quick" % p, shell=True, cwd=V, env=env, stdout=subprocess.PIPE, stderr=subprocess.STDOUT, text=True)
+            rc, o = pr.returncode, pr.stdout
             first = [l.strip() for l in o.splitlines() if l.strip().startswith("what:") or "INCONCLUSIVE" in l][:1]
             meta["checks"][p] = dict(exit=rc, verdict={0: "MISSED", 1: "caught", 2: "inconclusive"}.get(rc, str(rc)),
                                      seconds=round(time.time() - t0), first=(first[0][:500] if first else ""))
+        shutil.rmtree("/tmp/seedchk/evidence-%s-%s" % (prop, mid), ignore_errors=True)
     finally:
-        sh("git -C /repo checkout -- . && git -C /repo clean -fdq")
+        sh("git -C /repo worktree remove --force %s" % wt)
+        shutil.rmtree(wt, ignore_errors=True)
     d = os.path.join(V, "seeded", meta["id"])
     os.makedirs(d, exist_ok=True)
     shutil.copy(patch, os.path.join(d, "patch.diff"))
@@ -108,16 +109,26 @@ def main():
     if args and args[0] == "--round":
         ROUND = args[1]
         args = args[2:]
-    extra = {}
+    jobs = 1
+    if args and args[0] == "-j":
+        jobs, args = int(args[1]), args[2:]
+    work = []
     for a in args:
         prop, _, more = a.partition("+")
         for m in ("m1", "m2"):
-            r = confirm(prop, m, [x for x in more.split(",") if x])
-            ch = {k: v["verdict"] for k, v in r.get("checks", {}).items()}
-            print("%-8s %-60s %s" % (r["id"], r.get("status", "")[:60], ch), flush=True)
-            for k, v in r.get("checks", {}).items():
-                if v["first"]:
-                    print("         %s: %s" % (k, v["first"][:260]))
+            work.append((prop, m, [x for x in more.split(",") if x]))
+
+    def run(w):
+        r = confirm(*w)
+        ch = {k: v["verdict"] for k, v in r.get("checks", {}).items()}
+        lines = ["%-8s %-60s %s" % (r["id"], r.get("status", "")[:60], ch)]
+        for k, v in r.get("checks", {}).items():
+            if v["first"]:
+                lines.append("         %s: %s" % (k, v["first"][:260]))
+        print("\n".join(lines), flush=True)
+    from concurrent.futures import ThreadPoolExecutor
+    with ThreadPoolExecutor(max_workers=jobs) as ex:
+        list(ex.map(run, work))
 
 
 if __name__ == "__main__":
